@@ -370,6 +370,8 @@ pub fn run(args: &[String]) {
                 let tr = canon_trace(rfd);
                 let (req, exp) = match kind {
                     0 | 4 => ("recv", "R".to_string()),
+                    // the last sender is dropped during the wait: the end of file is confirmed by a second recvmsg
+                    2 => ("tmo 3000000", "P3000 R R".to_string()),
                     _ => ("tmo 3000000", "P3000 R".to_string()),
                 };
                 let _ = req;
